@@ -83,7 +83,7 @@ Definition opn (cs : list nat) : node := mkNode cs true true false.
 Definition chain (n : nat) : arena := leafn :: map (fun i => opn [i]) (seq 0 n).
 
 Example deep_chain :
-  let n := 2000 in
+  let n := 400 in
   match backward ZAlg (chain n) (fun _ _ => 1%Z) false n 1%Z (fun _ => None) with
   | Some (b, log) => length log = n /\ b 0 = Some 1%Z /\ b 1 = None /\ b n = Some 1%Z
   | None => False
